@@ -5,6 +5,7 @@ from __future__ import annotations
 import ast
 import math
 
+from sa.consteval import ev
 from sa.core import AnalysisError, Report, loc, norm_src, enclosing_function, canon_locals, canon_src
 from sa.paths import dotted, calls_in, call_name
 from sa.domfacts import dominating_facts
@@ -98,6 +99,8 @@ def run(repo, tier):
     r.trusted_base = ["Python ast", "dominance in structured code (sa/domfacts.py)"]
     r.rule("R19.1", "real_samples: every `// (num - 1)` has num - 1 != 0 and every negative index has enough elements, on all dominating facts", floor=5)
     r.rule("R19.3", "real_samples: every returning path whose value is built from min_value/max_value passes the include_subnormal bound adjustment first", floor=1)
+    r.rule("R19.4", "real_samples: the bit-pattern offset of every sample is computed in exact integer arithmetic (no true division, float literal or float call)", floor=3)
+    r.rule("R19.5", "real_samples: for every sample count 2..33, 100, 1000 and ten bit-pattern distances up to 2**63-1 the offsets start at 0, end at the distance, never decrease and are equally spaced up to one unit", floor=3)
     r.rule("R19.2", "product generators forward every shared option unchanged and axis k's size/bounds to the k-th inner call", floor=30)
 
     f = repo.func(REL, "real_samples")
@@ -124,8 +127,12 @@ def run(repo, tier):
     for n in ast.walk(f):
         if isinstance(n, ast.BinOp) and isinstance(n.op, (ast.FloorDiv, ast.Div, ast.Mod)):
             d = n.right
+            var = None
             if isinstance(d, ast.BinOp) and isinstance(d.op, ast.Sub) and isinstance(d.left, ast.Name) and isinstance(d.right, ast.Constant) and isinstance(d.right.value, int):
                 var, c = d.left.id, d.right.value
+            elif isinstance(d, ast.Name) and any(isinstance(a_, ast.comprehension) for a_ in _ancestors(n)):
+                var, c = d.id, 0
+            if var is not None:
                 sites += 1
                 lo, hi = interval_at(n, f, var)
                 ok = not (lo <= c <= hi)
@@ -152,13 +159,90 @@ def run(repo, tier):
             ok = lo >= k
             r.ob(
                 "R19.1",
-                f"{REL}::real_samples index `{canon_src(n, cn)}`",
+                f"{REL}::real_samples index [-{k}] of the sample array of `{cn.get(cvar, cvar) if isinstance(cn, dict) else cvar}` elements in branch [{_branch_key(n, f, cn)}]",
                 ok,
                 f"`{norm_src(n)}` needs at least {k} element(s) but the array has `{cvar}` elements and nothing dominating the statement gives {cvar} >= {k} (interval [{lo}, {hi}])",
                 loc(REL, n),
             )
     if sites < 5:
         raise AnalysisError(f"real_samples: only {sites} divisor/index sites recognised (expected 5)")
+
+    # ------------------------------------------------------------------ R19.4 offsets are exact integers
+    EXACT = (ast.FloorDiv, ast.Mult, ast.Add, ast.Sub, ast.Mod, ast.LShift, ast.RShift, ast.BitAnd, ast.BitOr, ast.BitXor)
+    n_off = 0
+    for x in ast.walk(f):
+        if isinstance(x, (ast.ListComp, ast.GeneratorExp)) and len(x.generators) == 1:
+            g = x.generators[0]
+            if not (isinstance(g.iter, ast.Call) and dotted(g.iter.func) == "range" and isinstance(g.target, ast.Name)):
+                continue
+            if g.target.id not in {m.id for m in ast.walk(x.elt) if isinstance(m, ast.Name)}:
+                continue
+            # only comprehensions whose result becomes an integer array that is added to a bit pattern
+            par = getattr(x, "_parent", None)
+            if not (isinstance(par, ast.Call) and (call_name(par) or "").split(".")[-1] in ("array", "asarray", "fromiter")):
+                continue
+            n_off += 1
+            bad = None
+            for m in ast.walk(x.elt):
+                if isinstance(m, ast.BinOp) and not isinstance(m.op, EXACT):
+                    bad = f"`{norm_src(m)}` uses {type(m.op).__name__}"
+                elif isinstance(m, ast.Constant) and not (isinstance(m.value, int) and not isinstance(m.value, bool)):
+                    bad = f"the non-integer literal {m.value!r}"
+                elif isinstance(m, ast.Call) and (call_name(m) or "") not in ("int", "abs", "min", "max", "divmod"):
+                    bad = f"the call `{norm_src(m)}`"
+                elif isinstance(m, ast.UnaryOp) and not isinstance(m.op, (ast.USub, ast.UAdd, ast.Invert)):
+                    bad = f"`{norm_src(m)}`"
+            r.ob(
+                "R19.4",
+                f"{REL}::real_samples bit-pattern offsets in branch [{_branch_key(x, f, cn)}]",
+                bad is None,
+                f"the offset `{norm_src(x.elt)}` of the k-th sample from the first bit pattern is not computed in integer arithmetic ({bad}): "
+                "for float64 the offsets reach 2**63 and a float64 intermediate keeps 53 bits, so interior samples drift and the ULP gaps "
+                "between neighbours differ by far more than one",
+                loc(REL, x),
+            )
+            if bad is not None:
+                continue
+            # R19.5: the offsets as a function of the sample count C and the bit-pattern distance S, on a finite model
+            names = {m.id for m in ast.walk(x.elt) if isinstance(m, ast.Name)} | {m.id for a in g.iter.args for m in ast.walk(a) if isinstance(m, ast.Name)}
+            names.discard(g.target.id)
+            stepv = g.iter.args[2].id if len(g.iter.args) == 3 and isinstance(g.iter.args[2], ast.Name) else None
+            cvars = names - {stepv}
+            key5 = f"{REL}::real_samples offsets as a function of (count, distance) in branch [{_branch_key(x, f, cn)}]"
+            if stepv is None or len(cvars) != 1:
+                r.ob("R19.5", key5, False, f"`{norm_src(x)}`: the range is not `range(0, count * distance, distance)` over one count and one distance variable", loc(REL, x))
+                continue
+            cvar = next(iter(cvars))
+            fail5 = None
+            n_models = 0
+            BUILT = {"int": int, "abs": abs, "min": min, "max": max, "divmod": divmod}
+            for C in list(range(2, 34)) + [100, 1000]:
+                for S in (1, 2, 3, 7, 100, 2**23 - 1, 2**31 + 5, 2**52 + 1, 2**62 + 12345, 2**63 - 1):
+                    envm = {cvar: C, stepv: S}
+                    ra = [ev(a, envm, calls=BUILT) for a in g.iter.args]
+                    if not all(isinstance(v, int) for v in ra):
+                        fail5 = f"range arguments not integer for count={C}, distance={S}"
+                        break
+                    offs = [ev(x.elt, dict(envm, **{g.target.id: i}), calls=BUILT) for i in range(*ra)]
+                    n_models += 1
+                    if not all(isinstance(o, int) and not isinstance(o, bool) for o in offs):
+                        fail5 = f"offsets are not integers for count={C}, distance={S} (e.g. {offs[:3]})"
+                    elif len(offs) != C:
+                        fail5 = f"count={C}, distance={S}: {len(offs)} offsets are generated, not {C}"
+                    elif offs[0] != 0 or offs[-1] != S:
+                        fail5 = f"count={C}, distance={S}: the offsets run from {offs[0]} to {offs[-1]}, so the samples do not start at the lower bound and end at the upper bound (0 .. {S})"
+                    else:
+                        gaps = [b - a for a, b in zip(offs, offs[1:])]
+                        if min(gaps) < 0 or max(gaps) - min(gaps) > 1:
+                            fail5 = f"count={C}, distance={S}: consecutive offsets differ by {min(gaps)} .. {max(gaps)}: not monotone / not equally spaced up to one unit"
+                    if fail5:
+                        break
+                if fail5:
+                    break
+            r.ob("R19.5", key5, fail5 is None, f"`{norm_src(x.elt)}` over `{norm_src(g.iter)}`: {fail5}", loc(REL, x),
+                 sample=dict(rule="R19.5", models=n_models))
+    if n_off < 3:
+        raise AnalysisError(f"real_samples: only {n_off} offset comprehensions recognised (expected 3)")
 
     # ------------------------------------------------------------------ R19.3 bounds are adjusted before they are used
     check_bounds_adjusted_before_use(r, repo, f)
@@ -272,6 +356,16 @@ def check_bounds_adjusted_before_use(r, repo, f, rule="R19.3"):
              "a path reaches this return without having tested include_subnormal: the bounds it uses were not moved out of the subnormal range", loc(REL, node))
     if not bad:
         r.ob(rule, f"{REL}::real_samples returns use adjusted bounds", True, f"none of the {npaths} paths that avoid the include_subnormal decision returns a value built from the bounds", loc(REL, f))
+
+
+def _ancestors(n):
+    # comprehension nodes are not parents of their element: report the comprehension of an enclosing ListComp/GeneratorExp
+    while n is not None:
+        n = getattr(n, "_parent", None)
+        if isinstance(n, (ast.ListComp, ast.GeneratorExp, ast.SetComp)):
+            yield from n.generators
+        if n is not None:
+            yield n
 
 
 def _branch_key(node, func, cn=None):
